@@ -52,6 +52,19 @@ func (p *c08) Run(w *lib.Worker, idx int, r *lib.Rand) lib.Case {
 		}
 	}
 	ncalls := r.Range(20, 120)
+	if idx%8 == 6 {
+		ncalls = r.Range(300, 700) // long sequences: something which accumulates a little per call needs many calls to show
+	}
+	// one case in three hands the values over as a decoder with UseNumber does (json.Number leaves)
+	useNumber := idx%3 == 1
+	decode := func(text []byte) any {
+		if useNumber {
+			v, _ := decodeNumber(text)
+			return v
+		}
+		v, _ := sut.Value(text)
+		return v
+	}
 	seq := make([]int, ncalls)
 	for i := range seq {
 		seq[i] = r.Intn(nvals)
@@ -86,8 +99,7 @@ func (p *c08) Run(w *lib.Worker, idx int, r *lib.Rand) lib.Case {
 		it := vals[vi]
 		run := func(v *validate.SchemaValidator) sut.Outcome {
 			return sut.Guard(func() sut.Outcome {
-				val, _ := sut.Value(it)
-				return sut.FromResult(v.Validate(val))
+				return sut.FromResult(v.Validate(decode(it)))
 			})
 		}
 		got := run(long)
@@ -97,7 +109,10 @@ func (p *c08) Run(w *lib.Worker, idx int, r *lib.Rand) lib.Case {
 		} else {
 			twin = run(twinB)
 		}
-		fresh := sut.WithValidator(st, it, "root", strfmt.Default)
+		fresh := sut.Guard(func() sut.Outcome {
+			fs, _ := sut.Schema(st)
+			return sut.FromResult(validate.NewSchemaValidator(fs, nil, "root", strfmt.Default).Validate(decode(it)))
+		})
 		if got.Key() != fresh.Key() || twin.Key() != fresh.Key() {
 			sample["call"] = n
 			sample["value"] = string(it)
